@@ -565,3 +565,27 @@ pub fn isolate<P: Property>(ctx: &Ctx, index: u64, family: u32) -> (Value, Outco
     };
     (v, r, k)
 }
+
+// ---------------------------------------------------------------------------------------------
+// hook counters
+
+static COUNTER_ACC: [std::sync::atomic::AtomicU64; 7] = [const { std::sync::atomic::AtomicU64::new(0) }; 7];
+
+/// Reads and clears the crate's hook counters; what was read is also added to an accumulator so
+/// that a check which wraps another check's `run` (C15) still sees the totals.
+pub fn take_counters() -> [u64; 7] {
+    let c = lzma_rust2::verif_api::take_counters();
+    for (a, v) in COUNTER_ACC.iter().zip(c.iter()) {
+        a.fetch_add(*v, std::sync::atomic::Ordering::Relaxed);
+    }
+    c
+}
+
+pub fn take_counter_totals() -> [u64; 7] {
+    let _ = take_counters();
+    let mut out = [0u64; 7];
+    for (o, a) in out.iter_mut().zip(COUNTER_ACC.iter()) {
+        *o = a.swap(0, std::sync::atomic::Ordering::Relaxed);
+    }
+    out
+}
